@@ -12,35 +12,48 @@
 (* With PODev # {} the named deviation must break the stated invariant.    *)
 (***************************************************************************)
 EXTENDS SoyPO
-CONSTANTS MaxParts, MaxInner, Locales
+CONSTANTS MaxParts, MaxInner, Locales, Shard, NShards
 VARIABLE pcase
 
 PBody == POFamBody(pcase)
 PMsg  == [body |-> PBody, meaning |-> "", desc |-> "d"]
 
-Init == pcase \in {d \in POFamFlat(MaxParts) \cup POFamPlural(MaxInner) \cup POFamExtra : PODomain(POFamBody(d))}
+Init == pcase \in {d \in POFamFlat(MaxParts) \cup POFamPlural(MaxInner) \cup POFamExtra :
+                      POShardOf(d, NShards) = Shard /\ PODomain(POFamBody(d))}
 Next == UNCHANGED pcase
 
 \* values of the plural subject to try (a plural-free message reads $n too)
 Ns == IF MsgHasPlural(PBody) THEN PONs ELSE <<3>>
 Envs == [i \in 1..Len(Ns) |-> POEnv(Ns[i])]
+\* (nothing about a plural-free message depends on the locale)
+Locs == IF MsgHasPlural(PBody) THEN Locales ELSE {"en"}
 
 RoundTripIdentity ==
   \A i \in 1..Len(Envs) : PORoundTrip(PMsg, "id", "en", Envs[i]) = PORenderSrc(PBody, Envs[i])
 
 RoundTripForms ==
-  \A i \in 1..Len(Envs), loc \in Locales :
+  \A i \in 1..Len(Envs), loc \in Locs :
      PORoundTrip(PMsg, "id", loc, Envs[i]) = POExpected(PBody, "id", loc, Envs[i])
 
 RoundTripReverse ==
-  \A i \in 1..Len(Envs), loc \in Locales :
+  \A i \in 1..Len(Envs), loc \in Locs :
      PORoundTrip(PMsg, "rev", loc, Envs[i]) = POExpected(PBody, "rev", loc, Envs[i])
 
 \* the rule the catalogue declares selects the form, whatever the locale
 HeaderWins ==
-  \A i \in 1..Len(Envs), rule \in Locales :
+  \A i \in 1..Len(Envs), rule \in Locs :
      \A k \in 1..Len(POCatalogueLocales(rule)) :
         PORoundTripIn(PMsg, "id", rule, POCatalogueLocales(rule)[k], Envs[i]) = POExpected(PBody, "id", rule, Envs[i])
+
+\* several different messages in one template body do not disturb each other
+Partners == << [body |-> <<PoolC11[2]>>, meaning |-> "", desc |-> ""],
+               [body |-> <<MText("t"), PoolC11[3], PoolC11[9]>>, meaning |-> "", desc |-> ""] >>
+
+SeqIsConcat ==
+  ~MsgHasPlural(PBody) =>
+    \A i \in 1..Len(Envs), st \in {"id", "rev"} :
+       /\ PORenderSeq(<<PMsg>> \o Partners, st, "en", Envs[i], "|") = POExpectedSeq(<<PMsg>> \o Partners, st, "en", Envs[i], "|")
+       /\ PORenderSeq(Partners \o <<PMsg>>, st, "en", Envs[i], "|") = POExpectedSeq(Partners \o <<PMsg>>, st, "en", Envs[i], "|")
 
 \* the two-form identity expectation is the source rendering (POExpected is
 \* consistent with PORenderSrc)
